@@ -1285,6 +1285,16 @@ const INVALID: &[(&str, &str)] = &[
 	("duplicate", ".const dup, 1; .const dup, 2;"),
 	("duplicate", "dupl: dupl:"),
 	("duplicate", ".global g9; .global g9;"),
+	// every order of definition / .global / .export / second publication of one name
+	("duplicate", "d9: .global d9; .global d9;"),
+	("duplicate", ".const d9, 1; .global d9; .global d9;"),
+	("duplicate", ".global d9; .const d9, 1; .global d9;"),
+	("duplicate", ".global d9; .global d9; .const d9, 1;"),
+	("duplicate", ".const d9, 1; .export d9; .global d9;"),
+	("duplicate", ".const d9, 1; .global d9; .export d9;"),
+	("duplicate", ".global d9; .const d9, 1; .export d9;"),
+	("duplicate", ".const d9, 1; .export d9; .export d9;"),
+	("duplicate", ".const d9, 1; .export d9; .const e9, 2; .global d9; .du8 e9;"),
 	("hex", ".dhex \"0g\";"),
 	("hex", ".dhex \"abc\";"),
 	("file", ".dfile \"missing.bin\";"),
@@ -1471,6 +1481,12 @@ const SCENARIOS: &[(&str, &[(&str, &[u8])], Option<(&str, u32, u32, &str)>)] = &
 		("d.bin", b"M"), ("c.asm", b".du8 0x11;\n"), ("sub/b.asm", b".dfile \"d.bin\";\n.include \"c.asm\";\n.dfile \"d.bin\";\n"), ("sub/d.bin", b"S"), ("sub/c.asm", b".du8 0x22;\n")], None),
 	("path-after-include", &[("main.asm", b".addr 0x100;\n.include \"sub/b.asm\";\n.dfile \"only_here.bin\";\n.include \"only_here.asm\";\n"),
 		("only_here.bin", b"M"), ("only_here.asm", b".du8 0x11;\n"), ("sub/b.asm", b".include \"deep/e.asm\";\n.dfile \"s.bin\";\n"), ("sub/s.bin", b"S"), ("sub/deep/e.asm", b".dfile \"s.bin\";\nNOP;\n"), ("sub/deep/s.bin", b"D")], None),
+	// a name published twice across an include: the included file re-publishes a name the includer already owns
+	("duplicate-across-include", &[("main.asm", b".addr 0x100;\n.const x9, 1;\n.include \"c.asm\";\n.du8 x9;\n"), ("c.asm", b".const x9, 2;\n.global x9;\n")], Some(("c.asm", 2, 1, "duplicate"))),
+	("duplicate-across-include", &[("main.asm", b".addr 0x100;\n.const x9, 1;\n.include \"c.asm\";\n.du8 x9;\n"), ("c.asm", b".const x9, 2;\n.export x9;\n")], Some(("c.asm", 2, 1, "duplicate"))),
+	("duplicate-across-include", &[("main.asm", b".addr 0x100;\nx9:\n.include \"c.asm\";\n.du8 x9 & 0xFF;\n"), ("c.asm", b"x9: .global x9;\n")], Some(("c.asm", 1, 5, "duplicate"))),
+	("duplicate-across-include", &[("main.asm", b".addr 0x100;\n.include \"c.asm\";\n.const x9, 1;\n.du8 x9;\n"), ("c.asm", b".const x9, 2;\n.global x9;\n")], Some(("main.asm", 3, 1, "duplicate"))),
+	("duplicate-across-include", &[("main.asm", b".addr 0x100;\n.global x9;\n.include \"c.asm\";\n.const x9, 1;\n"), ("c.asm", b".const x9, 2;\n.global x9;\n")], Some(("c.asm", 2, 1, "duplicate"))),
 	// diagnostics of an included file carry ITS name and position; the includer reports the failed include at its own statement
 	("in-child", &[("main.asm", b".addr 0x100;\n.include \"c.asm\";\n"), ("c.asm", b"NOP;\n  .align 1, 2;\n")], Some(("c.asm", 2, 3, "dir.toomany.align."))),
 	("in-child", &[("main.asm", b".addr 0x100;\n.include \"c.asm\";\n"), ("c.asm", b".global g9;\n.align g9;\n")], Some(("c.asm", 2, 1, "dir.apply.align.nosuch.local"))),
@@ -1663,6 +1679,189 @@ fn check_shadow(cx: &mut Cx, seed: u64, dir: &std::path::Path)
 	}
 	// without a pre-seeded global the whole-pipeline model can express the project
 	if !seeded {p.write(dir); check_asm_model(cx, &p, dir);}
+}
+
+// ---------------------------------------------------------------------------------------------------------
+// programs with a LARGE region (more than 64 KiB written into one region) next to small ones, in both source orders; two-pass
+// reference layout from the AST (C05) / must assemble resp. must be diagnosed without panic (C06). Input: `large <k>`.
+
+fn large_programs() -> Vec<(Vec<St>, Option<(u32, u32, &'static str)>)>
+{
+	let text: String = (0..70_000u32).map(|i| (b'a' + (i % 23) as u8) as char).collect();
+	let bytes: Vec<u8> = (0..70_000u32).map(|i| (i * 13 + 5) as u8).collect();
+	let n = |s: &str| E::Name(s.to_owned());
+	let nop = || St::Ins(Ins::Fixed("NOP".to_owned(), Instruction::Nop));
+	vec![
+		// large first, then a region above, then one below with little room; labels of the later regions used in the first
+		(vec![St::Addr(0x1000), St::Du(4, n("hi")), St::Du(4, n("lo")), St::Dstr(text.clone()), St::Label("end1".to_owned()), St::Addr(0x10_0000), St::Label("hi".to_owned()), St::Du(4, n("end1")), nop(),
+			St::Addr(0xFF0), St::Label("lo".to_owned()), St::Du(4, n("hi")), St::Du(2, E::Num(0xA55A)), St::Addr(0x20_0000), St::Du(1, E::Num(7))], None),
+		// `.align 0x20000` after one byte, then regions above and just below
+		(vec![St::Addr(0x2_0001), St::Du(1, E::Num(1)), St::Align(0x2_0000), St::Label("tail".to_owned()), St::Du(1, E::Num(2)), St::Addr(0x8_0000), St::Du(4, n("tail")), St::Du(4, n("below")),
+			St::Addr(0x2_0001 - 6), St::Label("below".to_owned()), St::Du(4, E::Num(0x0102_0304)), St::Du(2, E::Bin("&", Box::new(n("tail")), Box::new(E::Num(0xFFFF))))], None),
+		// small first, then the large one, then small again; forward reference over the large region
+		(vec![St::Addr(0x100), St::Du(4, n("big_end")), nop(), St::Addr(0x1000), St::Dhex(bytes.clone()), St::Label("big_end".to_owned()), St::Addr(0x200), St::Du(2, E::Num(1)), St::Du(4, n("big_end")),
+			St::Addr(0x1000 + 70_000), St::Du(1, E::Num(9))], None),
+		// two large regions one after the other, then a small one between them
+		(vec![St::Addr(0x1000), St::Dhex(bytes.clone()), St::Addr(0x10_0000), St::Dstr(text.clone()), St::Addr(0x8_0000), St::Label("mid".to_owned()), St::Du(4, n("mid")), nop()], None),
+		// must be diagnosed: the region below the large one has 4 bytes of room
+		(vec![St::Addr(0x1000), St::Dstr(text.clone()), St::Addr(0xFFC), St::Du(4, E::Num(1)), St::Du(1, E::Num(2))], Some((5, 1, "data.write.overflow.1.0"))),
+		(vec![St::Addr(0x1000), St::Dhex(bytes.clone()), St::Addr(0x2000), St::Du(1, E::Num(1))], Some((3, 1, "occupied."))),
+		(vec![St::Addr(0x1001), St::Du(1, E::Num(1)), St::Align(0x2_0000), St::Addr(0xFFE), nop(), nop(), nop()], Some((6, 1, "asm.write.overflow.2.1"))),
+	]
+}
+
+fn check_large(cx: &mut Cx, id: &str, k: usize, dir: &std::path::Path)
+{
+	let progs = large_programs();
+	let Some((stmts, want_diag)) = progs.get(k) else {cx.report.oracle_fail(format!("large {k}"), "unrecognised replay input"); return;};
+	let input = format!("large {k}");
+	// one statement per line, so that the expected diagnostic position is (index + 1, 1)
+	let mut files = Vec::new();
+	let mut text = String::new();
+	for st in stmts {let mut r = Rng::new(1); let line = render_stmts(std::slice::from_ref(st), &mut r, &mut files); text.push_str(line.trim_end_matches(|c| c != ';' && c != ':')); text.push('\n');}
+	let project = Project::single(text.as_bytes());
+	project.write(dir);
+	cx.report.hit(&format!("large-region program {k}"));
+	match run_real(dir)
+	{
+		Err(p) => {cx.report.case(Some("panic")); cx.report.oracle_fail(input, format!("panic: {p}"));},
+		Ok(o) =>
+		{
+			let clean = o.assemble_ok && o.close_err.is_none() && o.finalize && o.errors.is_empty();
+			cx.report.case(Some(&format!("large {k} {clean}")));
+			match want_diag
+			{
+				None =>
+				{
+					let (mut env, mut cur) = (HashMap::new(), None);
+					let mut image = BTreeMap::new();
+					let ok = pass1(stmts, &mut cur, &mut env).is_some() && {let mut c2 = None; pass2(stmts, &mut c2, &env, &mut image).is_some()};
+					if !ok {cx.report.oracle_fail(input, "harness error: the reference layout of a large-region program is undefined"); return;}
+					if !clean {cx.report.oracle_fail(input, format!("a well-formed program with a region > 64 KiB is refused: {:?}", o.errors.iter().take(3).collect::<Vec<_>>()));}
+					else if o.image != image
+					{
+						let diff = image.iter().find(|(a, b)| o.image.get(a) != Some(b)).map(|(a, b)| format!("at {a:08x} expected {b:02x} got {:?}", o.image.get(a)))
+							.or_else(|| o.image.iter().find(|(a, _)| !image.contains_key(a)).map(|(a, b)| format!("unexpected byte {b:02x} at {a:08x}")));
+						cx.report.oracle_fail(input, format!("image differs from the sequential layout ({} bytes expected, {} present): {}", image.len(), o.image.len(), diff.unwrap_or_default()));
+					}
+				},
+				Some((line, col, kind)) =>
+				{
+					if o.finalize && o.close_err.is_none() {cx.report.oracle_fail(input.clone(), "an ill-formed program with a region > 64 KiB is accepted");}
+					match o.errors.first()
+					{
+						Some((_, l, c, k2)) if l == line && c == col && k2.contains(kind) => (),
+						other => cx.report.oracle_fail(input.clone(), format!("first diagnostic {other:?}, expected {kind} at {line}:{col}")),
+					}
+				},
+			}
+			let _ = id;
+		},
+	}
+}
+
+// ---------------------------------------------------------------------------------------------------------
+// LIST forms of the data directives (`.du16 a, b, c;`, input `dulist <seed>`): today an arity diagnostic; should lists be accepted,
+// the statement must emit exactly the bytes of the one-value statements in sequence — forward references in every position
+
+fn check_du_list(cx: &mut Cx, seed: u64, dir: &std::path::Path)
+{
+	let mut rng = Rng::new(seed);
+	let input = format!("dulist {seed}");
+	let width = *rng.pick(&[1u32, 2, 4]);
+	let max: i64 = match width {1 => 0xFF, 2 => 0xFFFF, _ => 0xFFFF_FFFF};
+	let n = 2 + rng.below(4) as usize;
+	let base = 0x2000_0000u32 + 4 * rng.below(64) as u32;
+	let (mut before, mut after, mut items, mut bytes) = (String::new(), String::new(), Vec::new(), Vec::new());
+	let mut kinds = Vec::new();
+	for j in 0..n
+	{
+		let v = match rng.below(4) {0 => 0, 1 => max, _ => (rng.next() as i64).rem_euclid(max + 1)};
+		let (text, kind) = match rng.below(5)
+		{
+			0 => (format!("{v}"), "literal"),
+			1 => {before.push_str(&format!(".const b{j}, {v};\n")); (format!("b{j}"), "backward")},
+			2 | 3 => {after.push_str(&format!(".const f{j}, {v};\n")); (if rng.chance(1, 2) {format!("f{j}")} else {format!("f{j} + 0")}, "forward")},
+			_ => {before.push_str(&format!(".global g{j};\n")); after.push_str(&format!(".const g{j}, {v};\n")); (format!("g{j}"), "declared")},
+		};
+		items.push(text);
+		kinds.push(kind);
+		bytes.extend_from_slice(&(v as u64).to_le_bytes()[..width as usize]);
+	}
+	// a witness behind the list and a label that must sit behind all elements
+	let text = format!(".addr 0x{base:X};\n{before}.du{} {};\nbehind:\n.du32 behind;\n{after}", width * 8, items.join(", "));
+	bytes.extend_from_slice(&(base + width * n as u32).to_le_bytes());
+	let line = 2 + before.matches('\n').count() as u32;
+	let project = Project::single(text.as_bytes());
+	project.write(dir);
+	cx.report.hit(&format!("data list: {} of {n} elements not known yet", kinds.iter().filter(|k| **k != "literal" && **k != "backward").count()));
+	match run_real(dir)
+	{
+		Err(p) => {cx.report.case(Some("panic")); cx.report.oracle_fail(input, format!("panic: {p}"));},
+		Ok(o) =>
+		{
+			if let Some((_, l, _, k)) = o.errors.first()
+			{
+				cx.report.case(Some("arity"));
+				if !(k.starts_with("dir.toomany.du") && *l == line && !o.finalize)
+				{
+					cx.report.oracle_fail(input, format!("a data directive with {n} values is neither an arity diagnostic at line {line} nor accepted: {:?}; program {text:?}", o.errors.iter().take(3).collect::<Vec<_>>()));
+				}
+				else {cx.report.hit("data list: arity diagnostic");}
+			}
+			else
+			{
+				cx.report.hit("data list: accepted");
+				let got: Vec<u8> = o.image.iter().filter(|(a, _)| **a >= base).map(|(_, b)| *b).collect();
+				cx.report.case(Some(&hex(&got)));
+				if !(o.finalize && o.close_err.is_none()) || got != bytes
+				{
+					cx.report.oracle_fail(input, format!("the list form emits {} (finalize {}), the one-value statements in sequence emit {}; program {text:?}", hex(&got), o.finalize, hex(&bytes)));
+				}
+			}
+		},
+	}
+	check_asm_model(cx, &project, dir);
+}
+
+// ---------------------------------------------------------------------------------------------------------
+// `.dfile` of a file whose content is longer than its metadata length says (procfs: `/proc/version` announces 0 bytes), into a region
+// with little room below a closed region (`procfile <room>`): no panic; the region never exceeds its room; the bytes of the region above
+// stay; success xor diagnostic
+
+pub fn check_procfile(cx: &mut Cx, room: u32, dir: &std::path::Path)
+{
+	let input = format!("procfile {room}");
+	let path = "/proc/version";
+	let Ok(content) = std::fs::read(path) else {cx.report.notes.push(format!("{path} is absent: `{input}` skipped")); return;};
+	let upper = 0x0001_0000u32;
+	let text = format!(".addr 0x{upper:X};\n.du32 0xAABBCCDD;\n.du32 0x11223344;\n.addr 0x{:X};\n.dfile \"{path}\";\nafter:\n.du8 after & 0xFF;\n", upper - room);
+	let project = Project::single(text.as_bytes());
+	project.write(dir);
+	cx.report.hit(&format!("dfile of a procfs file ({} bytes of content, metadata length {}) with {room} bytes of room", content.len(), std::fs::metadata(path).map(|m| m.len()).unwrap_or(0)));
+	match run_real(dir)
+	{
+		Err(p) => {cx.report.case(Some("panic")); cx.report.oracle_fail(input, format!("panic: {p}"));},
+		Ok(o) =>
+		{
+			let success = o.close_err.is_none() && o.finalize;
+			cx.report.case(Some(&format!("procfile {room} {success}")));
+			if success != o.errors.is_empty() {cx.report.oracle_fail(input.clone(), format!("success = {success} with {} diagnostics", o.errors.len()));}
+			let up: Vec<u8> = (0..8).filter_map(|k| o.image.get(&(upper + k)).copied()).collect();
+			if up != [0xDD, 0xCC, 0xBB, 0xAA, 0x44, 0x33, 0x22, 0x11] {cx.report.oracle_fail(input.clone(), format!("the bytes of the closed region at {upper:08X} are {} after a .dfile below it", hex(&up)));}
+			if o.image.keys().any(|a| *a >= upper + 8) {cx.report.oracle_fail(input.clone(), "bytes appear above the upper region");}
+			let low: Vec<u8> = o.image.range(upper - room..upper).map(|(_, b)| *b).collect();
+			// whatever the directive took from the file must be a prefix of its content, followed by the `.du8` byte when it assembled
+			if success
+			{
+				let k = low.len().saturating_sub(1);
+				if low.is_empty() || content[..k.min(content.len())] != low[..k] || k > content.len() || low[k] != ((upper - room + k as u32) & 0xFF) as u8
+				{
+					cx.report.oracle_fail(input.clone(), format!("the region below holds {} which is not a prefix of the file followed by the byte of `.du8 after`", hex(&low)));
+				}
+			}
+		},
+	}
 }
 
 /// `.include` applied through `DirectiveList::process` on a fresh `Context` (no current file: the path is taken as it is
@@ -1861,6 +2060,9 @@ pub fn run(id: &str, cx: &mut Cx)
 			self_include(cx, &dir, rest.trim().parse().unwrap_or(1));
 			return;
 		}
+		if let Some(k) = input.strip_prefix("large ").and_then(|x| x.trim().parse::<usize>().ok()) {check_large(cx, id, k, &dir); return;}
+		if let Some(seed) = input.strip_prefix("dulist ").and_then(|x| x.trim().parse::<u64>().ok()) {check_du_list(cx, seed, &dir); return;}
+		if let Some(room) = input.strip_prefix("procfile ").and_then(|x| x.trim().parse::<u32>().ok()) {check_procfile(cx, room, &dir); return;}
 		if let Some(seed) = input.strip_prefix("shadow ").and_then(|x| x.trim().parse::<u64>().ok())
 		{
 			check_shadow(cx, seed, &dir);
@@ -1928,6 +2130,8 @@ labels, constants, .du8/16/32 with expressions over forward and backward symbols
 .include with .global/.import) rendered with random spacing/comments; oracle = two-pass reference layout computed from the AST (also for the damaged variants the implementation accepts); \
 non-trivial = non-empty image; distinct = distinct images".to_owned();
 			for _ in 0..if cx.thorough() {4000} else {400} {let seed = cx.rng.next(); check_shadow(cx, seed, &dir);}
+			for k in 0..large_programs().len() {check_large(cx, id, k, &dir);}
+			for _ in 0..if cx.thorough() {3000} else {300} {let seed = cx.rng.next(); check_du_list(cx, seed, &dir);}
 			let n = if cx.thorough() {100_000} else {12_000};
 			let mut made = 0;
 			let mut tries = 0;
@@ -2008,6 +2212,9 @@ oracle = no panic; success xor (diagnostic with file/line/col or close error); i
 			}
 			include_without_current_file(cx, &dir);
 			finalize_with_late_values(cx, &dir);
+			for k in 0..large_programs().len() {check_large(cx, id, k, &dir);}
+			for room in [4u32, 12, 1000] {check_procfile(cx, room, &dir);}
+			for _ in 0..100 {let seed = cx.rng.next(); check_du_list(cx, seed, &dir);}
 			let n = if cx.thorough() {120_000} else {8_000};
 			let mut made = 0;
 			while made < n
